@@ -1,5 +1,7 @@
 import CoercionModel.Proofs.Engine
 import CoercionModel.Props.C01
+import CoercionModel.Model.Skeletons
+import CoercionModel.Generated.F10
 set_option linter.unusedSimpArgs false
 /-
   C03 — Tolerated-failure threshold stops new sequences and decides outcomes.
@@ -99,5 +101,11 @@ def exB : MBlock := { idx := 1, tol := 1, seqs := [{ idx := 2, actions := [bad] 
 example : (seqStage true exB).2 = 2 ∧ blkExceeded exB = true ∧ blkStatus exB = .failed ∧
     (seqStage true exB).1.evs = [.seq 1 2 false, .seq 1 3 true, .seq 1 5 false] := by decide
 example : blkStatus { exB with tol := -1 } = .completed := by decide
+
+/-- the Go functions this property's model mirrors still have the shape the model was written against
+    (control-flow skeletons regenerated from /repo on every run, Model/Skeletons): executeSequences -/
+theorem facts_skeleton :
+    Generated.F10.executeSequences = Skeletons.executeSequences := by
+  decide
 
 end Coercion.C03
